@@ -68,6 +68,7 @@ def run(ctx):
     rule8(ctx, prog, flows)
     rule9(ctx, prog, flows, full)
     rule10(ctx, prog, flows)
+    rule12(ctx, prog, flows, full)
     relaxation_discipline(ctx, prog, flows, "R-C08-11", {"dijkstra::dijkstra": "full", "dijkstra::dijkstra_basic": "basic"})
 
 
@@ -916,3 +917,78 @@ def relaxation_discipline(ctx, prog, flows, rid, kernels):
                     "%s makes a popped node's distance final under %s, not under %s: a node that is already final is overwritten by a later (longer) heap entry, or nodes are never made final" % (sfx, show(condA), show(wantA)), loc_str(fin_in_loop[0].span) if fin_in_loop else loc_str(k.span))
         ctx.require(condB == wantB, rid, "relax|" + kind, "%s lowers a tentative distance exactly under %s" % (sfx.split("::")[-1], show(wantB)),
                     "%s lowers a tentative distance under %s, not under %s: a longer candidate replaces a shorter one, or a shorter one is ignored -- the distances are no longer the shortest ones" % (sfx, show(condB), show(wantB)), loc_str(tent_w[0][1].span))
+
+
+def rule12(ctx, prog, flows, full):
+    """(a) the kernels' result keeps exactly the nodes whose final distance is not f64::MAX (the reached ones); (b) the
+    target exit: the pop loop is LEFT exactly on the outcome `target == Some(v)` of the target test and continues on the
+    other -- flipped, the search stops at the first node that is not the target; without the exit it is merely slower,
+    but with `first_only` / cutoff semantics unchanged the rule still wants the statement's "restricts, never changes"."""
+    from engines import predicate_true_paths
+    from hashord import natural_loop_blocks
+
+    ctx.rule("R-C08-12", "results keep exactly the entries with distance != f64::MAX; the pop loop is left exactly when the popped node is the target")
+    n = 0
+    g = prog.find("dijkstra::get_shortest_path_infos")
+    for k in g:
+        for cb in prog.closures_of(k.path):
+            if cb.local_ty(0) != "bool":
+                continue
+            paths = predicate_true_paths(flows.of(cb), cb)
+            if paths is None or not any(any("MAX" in o for o in ops) for pth in paths for (_r, _p, ops) in pth):
+                continue
+            n += 1
+            ok = len(paths) == 1 and len(paths[0]) == 1 and all(rel == "eq" and pol is False for (rel, pol, ops) in paths[0])
+            ctx.require(ok, "R-C08-12", "reached-filter", "get_shortest_path_infos keeps exactly the entries whose distance is not f64::MAX",
+                        "the result filter of get_shortest_path_infos is true under %s: unreached nodes are reported (with distance f64::MAX) or reached ones are dropped" % [sorted(("%s%s(%s)" % ("" if pol else "!", rel, ",".join(sorted(ops)))) for (rel, pol, ops) in pth) for pth in paths], loc_str(cb.span))
+    fl = flows.of(full)
+    tgt = full.param_local("target")
+    loops = []
+    for blk in full.normal_blocks():
+        for s_ in full.succ(blk.i):
+            if full.dominates(s_, blk.i):
+                loops.append(natural_loop_blocks(full, s_))
+    if tgt is not None:
+        for blk in full.normal_blocks():
+            if blk.term.k != "switch" or blk.term.discr.place is None:
+                continue
+            at = fl.atom(blk.i)
+            if not at or at.get("ty") != "bool":
+                continue
+            te = panic.norm(at["test"])
+            neg = False
+            while isinstance(te, tuple) and te[0] == "unop" and te[1] == "Not":
+                neg = not neg
+                te = te[2]
+            is_eq = isinstance(te, tuple) and ((te[0] == "call" and te[1].split("::")[-1] in ("eq", "ne", "is_some_and", "contains")) or (te[0] == "binop" and te[1] in ("Eq", "Ne")))
+            if not is_eq or not desc_mentions(te, lambda x: x[0] == "place" and x[1].split(".")[0] == full.local_name(tgt)):
+                continue
+            inl = [lb for lb in loops if blk.i in lb]
+            if not inl:
+                continue
+            lb = max(inl, key=len) if False else min(inl, key=len)
+            n += 1
+            ne_form = (te[1].split("::")[-1] == "ne") or te[1] == "Ne"
+            t_succ, f_succ = at["otherwise"], dict(at["targets"]).get(0)
+            if neg:
+                t_succ, f_succ = f_succ, t_succ
+            eq_succ, ne_succ = (f_succ, t_succ) if ne_form else (t_succ, f_succ)
+            # leaving = the loop header is not reachable again without passing .. simply: the successor is outside the loop,
+            # or every path from it leaves the loop before the next pop
+            def leaves(s0):
+                if s0 not in lb:
+                    return True
+                hdrs = [h for h in lb if all(full.dominates(h, x) for x in lb)]
+                seen_, st_ = set(), [s0]
+                while st_:
+                    x = st_.pop()
+                    if x in seen_ or x not in lb:
+                        continue
+                    seen_.add(x)
+                    if x in hdrs and x != s0:
+                        return False
+                    st_.extend(full.succ(x))
+                return True
+            ctx.require(leaves(eq_succ) and not leaves(ne_succ), "R-C08-12", "target-exit|%d" % n, "the pop loop is left when the popped node is the target and goes on otherwise",
+                        "the target test of the full kernel %s: the search %s" % ("leaves the pop loop on the outcome `popped node != target`" if leaves(ne_succ) else "does not leave the pop loop when the popped node is the target", "stops at the first popped node that is not the target, so the target (and everything else) is missing from the result" if leaves(ne_succ) else "goes on past the target: not wrong by itself, but then the `target` option no longer restricts anything and the early exit the option promises is gone"), loc_str(blk.term.span))
+    ctx.counters["result_filters_and_target_exits"] = n
